@@ -5,12 +5,13 @@
 
     Transcribes, on top of Paths.v / Keyed.v:
       reactive_stores   field accessors (Subfield, OptionStoreExt::unwrap, AtIndex, KeyedSubfield,
-                        AtKeyed): path(), reader(), writer(), Write, Patch/PatchField
+                        AtKeyed, ArcField / Field): path(), reader(), writer(), Write,
+                        Patch/PatchField, iter_unkeyed, the keyed iterator
       reactive_graph    ArcTrigger::{track, notify} (subscriber_traits.rs mark_subscribers_check),
                         Effect::new (clear_sources, re-run, re-subscribe), channel wake-ups
       harness/stores    the executor (wake = enqueue unless queued, drain by schedule) and the
-                        reader body (read the addressed field, or the container that cuts the
-                        chain short)
+                        reader body (read — or iterate over — the addressed field; nothing if
+                        the chain is cut short)
     No proofs in this file. *)
 From Coq Require Import List Arith Bool ZArith.
 From LV Require Import Base.Sexp Store.Paths Store.Keyed.
@@ -40,7 +41,8 @@ Definition keys_of (v : sexp) : list Z := map item_key (as_list v).
 Record reached := mkReached {
   r_era : option bool;      (* the accessor is a type-erased handle: Some false ArcField, Some true Field *)
   r_sh : shape;
-  r_val : option sexp;      (* what reader() gives: None = no guard (key unknown to FieldKeys) *)
+  r_val : option sexp;      (* what reader() gives: None = no guard (key unknown to FieldKeys;
+                               a stale index beyond the end, where the code panics, also ends here) *)
   r_segs : path;            (* path() *)
   r_lens : list nat;        (* positions in the value tree (a keyed step uses FieldKeys' index) *)
   r_keys : keymap;
